@@ -5,6 +5,7 @@ package main
 //   bind mask <str>                      => <masked>
 //   bind keymap <str> <intent>           => ok <parsed> <expected> | reject
 //   bind opts <env words|_> <argv|_>     => ok <dump> | reject
+//   bind override <env 1|_> <prefix words> <form1> <form2>  => <st(prefix+f1+f2)> <st(prefix+f2)> <st(f1)> <st(f2)> <equal> <first difference> <panic>
 //
 //   <intent>  ";"-joined groups  <keys>=<acts>  ; keys "+"-joined key names (bytes), acts "&"-joined name~arg (bytes, "-" none)
 //   <parsed>/<expected>  ";"-joined, sorted:  <type>.<char>=<name>~<arg>&…
@@ -14,6 +15,7 @@ import (
 	"fmt"
 	"math/rand"
 	"os"
+	"regexp"
 	"sort"
 	"strings"
 
@@ -47,24 +49,114 @@ func bindEval(op string, a []string) string {
 		}
 		// expected: from the intent, with key names resolved by parseKeyChords
 		exp := map[[2]int][]fzf.VerifBoundAction{}
-		if a[1] != "_" {
+		if a[1] != "_" && a[1] != "!" {
 			for _, grp := range strings.Split(a[1], ";") {
 				kv := strings.SplitN(grp, "=", 2)
 				acts := []fzf.VerifBoundAction{}
+				appendTo := strings.HasPrefix(kv[1], "+")
+				kv[1] = strings.TrimPrefix(kv[1], "+")
 				for _, x := range strings.Split(kv[1], "&") {
 					na := strings.SplitN(x, "~", 2)
 					acts = append(acts, fzf.VerifBoundAction{Name: string(decBytes(na[0])), Arg: string(decBytes(na[1]))})
 				}
+				seen := map[[2]int]bool{}
 				for _, kn := range strings.Split(kv[0], "+") {
 					evs, err := fzf.VerifParseKeyChords(string(decBytes(kn)))
 					if err != nil || len(evs) != 1 {
 						return "bad-key"
 					}
-					exp[evs[0]] = acts // a later group for the same key replaces the earlier binding
+					if seen[evs[0]] { // a key list is a set
+						continue
+					}
+					seen[evs[0]] = true
+					if appendTo { // "key:+actions" extends what the key is bound to so far
+						exp[evs[0]] = append(append([]fzf.VerifBoundAction{}, exp[evs[0]]...), acts...)
+					} else {
+						exp[evs[0]] = acts // a later group for the same key replaces the earlier binding
+					}
 				}
 			}
 		}
 		return "ok " + dumpKeymap(got) + " " + dumpKeymap(exp)
+	case "override":
+		// a[0] env words | a[1] prefix words | a[2] first form | a[3] second form
+		words := func(x string) []string {
+			out := []string{}
+			if x != "_" {
+				for _, w := range decStrList(x) {
+					out = append(out, string(w))
+				}
+			}
+			return out
+		}
+		quote := func(ws []string) string {
+			qs := []string{}
+			for _, w := range ws {
+				qs = append(qs, "'"+strings.ReplaceAll(w, "'", "'\\''")+"'")
+			}
+			return strings.Join(qs, " ")
+		}
+		env, g, f1, f2 := words(a[0]), words(a[1]), words(a[2]), words(a[3])
+		run := func(env []string, args []string) (string, string) {
+			os.Setenv("FZF_DEFAULT_OPTS", quote(env))
+			os.Unsetenv("FZF_DEFAULT_OPTS_FILE")
+			defer os.Unsetenv("FZF_DEFAULT_OPTS")
+			return fzf.VerifOptionsFull(true, args)
+		}
+		cat := func(xs ...[]string) []string {
+			out := []string{}
+			for _, x := range xs {
+				out = append(out, x...)
+			}
+			return out
+		}
+		run0 := run
+		run = func(env []string, args []string) (string, string) {
+			st, d := run0(env, args)
+			if st == "ok" {
+				// not part of the configuration: the position of --height / --tmux on the command line
+				// (only their relative order matters), and the info prefix of a style that has none
+				d = reIndex.ReplaceAllString(d, " index:_")
+				if !strings.Contains(d, " InfoStyle:2 ") && !strings.Contains(d, " InfoStyle:3 ") {
+					d = rePrefix.ReplaceAllString(d, " InfoPrefix:_ ")
+				}
+			}
+			return st, d
+		}
+		s12, d12 := run(env, cat(g, f1, f2))
+		s2, d2 := run(nil, cat(g, f2))
+		if len(env) > 0 { // the environment layer carries the first form
+			s12, d12 = run(cat(g, f1), f2)
+			s2, d2 = run(g, f2)
+		}
+		sf1, _ := run(nil, f1)
+		sf2, _ := run(nil, f2)
+		eq, diff := 1, ""
+		if s12 == "ok" && s2 == "ok" && d12 != d2 {
+			eq = 0
+			i := 0
+			for i < len(d12) && i < len(d2) && d12[i] == d2[i] {
+				i++
+			}
+			lo := i - 60
+			if lo < 0 {
+				lo = 0
+			}
+			hi := func(d string) int {
+				if i+40 < len(d) {
+					return i + 40
+				}
+				return len(d)
+			}
+			diff = d12[lo:hi(d12)] + " <> " + d2[lo:hi(d2)]
+		}
+		crash := ""
+		if s12 == "crash" {
+			crash = d12
+		} else if s2 == "crash" {
+			crash = d2
+		}
+		return fmt.Sprintf("%s %s %s %s %d %s %s", s12, s2, sf1, sf2, eq, encStr(diff), encStr(crash))
 	case "opts":
 		env, args := "", []string{}
 		if a[0] != "_" {
@@ -125,7 +217,9 @@ func renderAct(r *rand.Rand, name, arg string, last bool) (string, bool) {
 func bindGen(r *rand.Rand, count int, emit func(op string, args ...string)) {
 	junk := []string{":", "+", ",", "execute", "(", ")", "a", "reload", "[", "]", "~", "up", "change-query", "x", " ", "::", ",,,", ",:", "+:", "pos", "put", "é"}
 	for i := 0; i < count; i++ {
-		switch r.Intn(6) {
+		switch r.Intn(8) {
+		case 6, 7:
+			emitOverride(r, emit)
 		case 0:
 			var sb strings.Builder
 			for k := 0; k < r.Intn(10); k++ {
@@ -136,6 +230,24 @@ func bindGen(r *rand.Rand, count int, emit func(op string, args ...string)) {
 				emit("mask", encStr(s))
 			} else {
 				emit("keymap", encStr(s), "_")
+			}
+		case 2:
+			// bare put: allowed exactly for keys that are printable characters
+			nk := 1 + r.Intn(3)
+			keys, ks, allPrintable := []string{}, []string{}, true
+			for k := 0; k < nk; k++ {
+				key := bindKeys[r.Intn(len(bindKeys))]
+				keys = append(keys, key)
+				ks = append(ks, encStr(key))
+				if !(len(key) == 1 || key == "space") {
+					allPrintable = false
+				}
+			}
+			str := strings.Join(keys, ",") + ":" + []string{"put", "Put", "up+put", "put+down"}[r.Intn(4)]
+			if allPrintable {
+				emit("keymap", encStr(str), "_")
+			} else {
+				emit("keymap", encStr(str), "!")
 			}
 		case 1:
 			// option vectors from the modelled vocabulary
@@ -191,7 +303,14 @@ func bindGen(r *rand.Rand, count int, emit func(op string, args ...string)) {
 				nk := 1 + r.Intn(2)
 				keys := []string{}
 				for k := 0; k < nk; k++ {
-					keys = append(keys, bindKeys[r.Intn(len(bindKeys))])
+					key := bindKeys[r.Intn(len(bindKeys))]
+					dup := false
+					for _, x := range keys {
+						dup = dup || x == key
+					}
+					if !dup { // a key named twice in one list is bound twice (visible with the append form)
+						keys = append(keys, key)
+					}
 				}
 				na := 1 + r.Intn(3)
 				rendered, intent := []string{}, []string{}
@@ -216,8 +335,23 @@ func bindGen(r *rand.Rand, count int, emit func(op string, args ...string)) {
 				for _, k := range keys {
 					ks = append(ks, encStr(k))
 				}
-				groups = append(groups, strings.Join(keys, ",")+":"+strings.Join(rendered, "+"))
-				intents = append(intents, strings.Join(ks, "+")+"="+strings.Join(intent, "&"))
+				plus := ""
+				if g > 0 && r.Intn(3) == 0 { // append form; often to keys bound by an earlier group
+					plus = "+"
+					if r.Intn(2) == 0 {
+						prev := strings.Split(strings.SplitN(groups[r.Intn(len(groups))], ":", 2)[0], ",")[0]
+						dup := false
+						for _, k := range keys {
+							dup = dup || k == prev
+						}
+						if !dup {
+							keys = append(keys, prev)
+							ks = append(ks, encStr(prev))
+						}
+					}
+				}
+				groups = append(groups, strings.Join(keys, ",")+":"+plus+strings.Join(rendered, "+"))
+				intents = append(intents, strings.Join(ks, "+")+"="+plus+strings.Join(intent, "&"))
 			}
 			if !ok {
 				i--
@@ -226,6 +360,196 @@ func bindGen(r *rand.Rand, count int, emit func(op string, args ...string)) {
 			emit("keymap", encStr(strings.Join(groups, ",")), strings.Join(intents, ";"))
 		}
 	}
+}
+
+// optionVocabulary reads the option names out of the option loop of /repo/src/options.go and finds,
+// by asking the parser itself, which forms (`--opt`, `--opt value`, `--opt=value`) are accepted.
+var reIndex = regexp.MustCompile(` index:\d+`)
+var rePrefix = regexp.MustCompile(` InfoPrefix:"[^"]*" `)
+var optForms map[string][][]string
+var optNames []string
+var optFields map[string]map[string]bool // option -> fields of Options its block assigns (read off the source)
+
+// assignedFields: the full paths `opts.A.b` on the left-hand side of an assignment in one source line
+func assignedFields(t string) []string {
+	eq := -1
+	for i := 1; i+1 < len(t); i++ {
+		if t[i] == '=' && t[i+1] != '=' && !strings.ContainsRune("=!<>:+-|&", rune(t[i-1])) {
+			eq = i
+			break
+		}
+	}
+	if eq < 0 {
+		return nil
+	}
+	lhs := strings.TrimPrefix(strings.TrimSpace(t[:eq]), "if ")
+	out := []string{}
+	for _, term := range strings.Split(lhs, ",") {
+		term = strings.TrimSpace(term)
+		if strings.HasPrefix(term, "opts.") && !strings.ContainsAny(term, " ()") {
+			out = append(out, strings.TrimPrefix(term, "opts."))
+		}
+	}
+	return out
+}
+
+// coveredBy: the options whose block assigns every field that `n`'s block assigns
+func coveredBy(n string) []string {
+	out := []string{}
+	if len(optFields[n]) == 0 {
+		return out
+	}
+	for _, m := range optNames {
+		if m == n || accumulating[m] || accumulating["--"+strings.TrimPrefix(m, "--no-")] {
+			continue
+		}
+		all := true
+		for f := range optFields[n] {
+			all = all && optFields[m][f]
+		}
+		if all {
+			out = append(out, m)
+		}
+	}
+	return out
+}
+
+func optionVocabulary() {
+	if optForms != nil {
+		return
+	}
+	optForms = map[string][][]string{}
+	repo := os.Getenv("VERIF_REPO")
+	if repo == "" {
+		repo = "/repo"
+	}
+	src, err := os.ReadFile(repo + "/src/options.go")
+	if err != nil {
+		panic(err)
+	}
+	names := map[string]bool{}
+	optFields = map[string]map[string]bool{}
+	cur := []string{}
+	for _, line := range strings.Split(string(src), "\n") {
+		t := strings.TrimSpace(line)
+		if !strings.HasPrefix(t, "case \"-") && !strings.HasPrefix(t, "case \"+") {
+			if strings.HasPrefix(t, "case ") || strings.HasPrefix(t, "default:") {
+				cur = nil
+			}
+			// fields of Options this option's block assigns
+			for _, f := range assignedFields(t) {
+				for _, n := range cur {
+					optFields[n][f] = true
+				}
+			}
+			continue
+		}
+		cur = nil
+		for _, q := range strings.Split(strings.TrimSuffix(strings.TrimPrefix(t, "case "), ":"), ",") {
+			q = strings.Trim(strings.TrimSpace(q), "\"")
+			if strings.HasPrefix(q, "-") || strings.HasPrefix(q, "+") {
+				names[q] = true
+				cur = append(cur, q)
+				if optFields[q] == nil {
+					optFields[q] = map[string]bool{}
+				}
+			}
+		}
+	}
+	values := []string{"1", "0", "10", "-1", "foo", "right", "default", "50%", "a,b", "", "never", "ctrl-a", "x:y", "reverse", "hidden",
+		"v1", "path", "index", "2..", ":", "rounded", "top", "file,dir", "up", "80%,40%", "dark", "inline", "a:up", "bg:1", "echo {}",
+		"localhost:0", "1,2", "100", "sharp", "--tac", "+", "{}", "begin,length"}
+	os.Unsetenv("FZF_DEFAULT_OPTS")
+	os.Unsetenv("FZF_DEFAULT_OPTS_FILE")
+	for n := range names {
+		switch n {
+		case "--help", "--version", "--man", "--bash", "--zsh", "--fish", "--profile-cpu", "--profile-mem", "--profile-block", "--profile-mutex":
+			continue // terminate the program or start profilers
+		}
+		forms := [][]string{}
+		if st, _ := fzf.VerifOptionsFull(false, []string{n}); st == "ok" {
+			forms = append(forms, []string{n})
+		}
+		for _, v := range values {
+			if st, _ := fzf.VerifOptionsFull(false, []string{n, v}); st == "ok" {
+				// only when the value was really consumed as the option's value
+				if st1, _ := fzf.VerifOptionsFull(false, []string{v}); st1 != "ok" || v == "" {
+					forms = append(forms, []string{n, v})
+				}
+			}
+			if strings.HasPrefix(n, "--") {
+				if st, _ := fzf.VerifOptionsFull(false, []string{n + "=" + v}); st == "ok" {
+					forms = append(forms, []string{n + "=" + v})
+				}
+			}
+		}
+		if len(forms) > 0 {
+			optForms[n] = forms
+			optNames = append(optNames, n)
+		}
+	}
+	sort.Strings(optNames)
+}
+
+// options whose occurrences accumulate by design (documented): key bindings, colours, the
+// preview window and toggles of sets of keys
+var accumulating = map[string]bool{"--bind": true, "--color": true, "--preview-window": true, "--expect": true, "--toggle-sort": true}
+
+func emitOverride(r *rand.Rand, emit func(op string, args ...string)) {
+	optionVocabulary()
+	enc := func(ws []string) string {
+		if len(ws) == 0 {
+			return "_"
+		}
+		bs := [][]byte{}
+		for _, w := range ws {
+			bs = append(bs, []byte(w))
+		}
+		return encStrList(bs)
+	}
+	n := optNames[r.Intn(len(optNames))]
+	for accumulating[n] || accumulating["--"+strings.TrimPrefix(n, "--no-")] {
+		n = optNames[r.Intn(len(optNames))]
+	}
+	f1 := optForms[n][r.Intn(len(optForms[n]))]
+	// the second occurrence: the same option, or its negation / positive twin when there is one
+	n2 := n
+	if r.Intn(3) == 0 {
+		twin := ""
+		if strings.HasPrefix(n, "--no-") {
+			twin = "--" + strings.TrimPrefix(n, "--no-")
+		} else if strings.HasPrefix(n, "--") {
+			twin = "--no-" + strings.TrimPrefix(n, "--")
+		}
+		if _, ok := optForms[twin]; ok {
+			n2 = twin
+		}
+		if cs := coveredBy(n); len(cs) > 0 && r.Intn(2) == 0 {
+			n2 = cs[r.Intn(len(cs))] // another option that writes (at least) the same fields
+		}
+	}
+	f2 := optForms[n2][r.Intn(len(optForms[n2]))]
+	if r.Intn(4) == 0 { // arbitrary words where a value may be expected: accepted or rejected, never a crash
+		junk := []string{"", " ", "-", "--", "=", "99999999999999999999", "1e9", "%", ",", "-5", "0x10", "\xff", "é", ":", "+", "()", "[", "..", "1.."}[r.Intn(19)]
+		switch r.Intn(3) {
+		case 0:
+			f2 = []string{n2, junk}
+		case 1:
+			f2 = []string{n2 + "=" + junk}
+		default:
+			f2 = []string{n2, junk, junk}
+		}
+	}
+	g := []string{}
+	for k := 0; k < r.Intn(3); k++ {
+		o := optNames[r.Intn(len(optNames))]
+		g = append(g, optForms[o][r.Intn(len(optForms[o]))]...)
+	}
+	env := "_"
+	if r.Intn(3) == 0 {
+		env = "1"
+	}
+	emit("override", env, enc(g), enc(f1), enc(f2))
 }
 
 func init() { register("bind", &area{gen: bindGen, eval: bindEval}) }
